@@ -67,6 +67,9 @@ pub fn list_files(dir: &str, suffix: &str) -> Vec<String> {
 pub fn plan_jobs(corpus_dir: &str, thorough: bool, seed: u64) -> Vec<Value> {
     let tier = if thorough { "thorough" } else { "quick" };
     let mut jobs = vec![];
+    if let Ok(dir) = std::env::var("H14_WITNESSES") {
+        jobs.push(json!({"kind": "wit", "src": dir, "tier": tier, "seed": seed}));
+    }
     let mut files: Vec<(u64, String)> = list_files(corpus_dir, ".sierra")
         .into_iter()
         .map(|f| (std::fs::metadata(&f).map(|m| m.len()).unwrap_or(0), f))
@@ -102,6 +105,7 @@ pub fn run_job(job: &Value) {
         "cls" => classes::run_cls_job(job),
         "fel" => felts::run_fel_job(job),
         "rnd" => felts::run_rnd_job(job),
+        "wit" => run_wit_job(job),
         _ => {}
     }
 }
@@ -354,20 +358,11 @@ fn run_mut_job(job: &Value) {
     }
 }
 
-/// Re-runs the witness of one finding; exit code 1 when the panic / failure reproduces.
-pub fn replay(f: &Value) -> i32 {
-    if let Some(job) = f.get("job") {
-        // hang / crash findings: re-run the single item in this process
-        println!("re-running item {} of job {}", job["start"], job);
-        run_job(job);
-        return 0;
-    }
+/// Runs the input stored in a finding / witness file; returns a description and the panics met.
+pub fn run_witness(f: &Value) -> Option<(String, Vec<Panic>)> {
     match f["entry"].as_str() {
         Some("pipeline") => {
-            let Ok(p) = serde_json::from_value::<Program>(f["program_json"].clone()) else {
-                println!("no program in the finding file");
-                return 2;
-            };
+            let p = serde_json::from_value::<Program>(f["program_json"].clone()).ok()?;
             let solvers: Vec<Solver> = f["solvers"]
                 .as_array()
                 .map(|a| a.iter().filter_map(|x| x.as_str()).map(Solver::parse).collect())
@@ -379,18 +374,71 @@ pub fn replay(f: &Value) -> i32 {
                     panics.push(pa);
                 }
             }
-            println!("stages: {}", o.stages.iter().map(|(s, st, d)| format!("{}:{} {}", s.name(), st, d)).collect::<Vec<_>>().join(" | "));
+            let d = o.stages.iter().map(|(s, st, d)| format!("{}:{} {}", s.name(), st, d)).collect::<Vec<_>>().join(" | ");
+            Some((d, panics))
+        }
+        Some("felts") => felts::run_witness(f),
+        Some("class") => classes::run_witness(f),
+        _ => None,
+    }
+}
+
+/// Re-runs the witness of one finding; exit code 1 when the panic / failure reproduces.
+pub fn replay(f: &Value) -> i32 {
+    if let Some(job) = f.get("job") {
+        // hang / crash findings: re-run the single item in this process
+        println!("re-running item {} of job {}", job["start"], job);
+        run_job(job);
+        return 0;
+    }
+    match run_witness(f) {
+        Some((d, panics)) => {
+            println!("{d}");
             for p in &panics {
                 println!("PANIC in {} at {}: {}", p.at, p.loc, p.msg);
             }
             if panics.is_empty() { 0 } else { 1 }
         }
-        Some("felts") => felts::replay(f),
-        Some("class") => classes::replay(f),
-        _ => {
-            println!("unknown finding kind");
+        None => {
+            println!("no runnable input in the finding file");
             2
         }
+    }
+}
+
+/// Stored witnesses of earlier findings (corpus/C14/witnesses/*.json) are re-run on every run, so
+/// that a known site is met whatever the seed, and a repaired one goes quiet.
+fn run_wit_job(job: &Value) {
+    let dir = job["src"].as_str().unwrap_or("");
+    let w = Window::of(job);
+    for (i, path) in list_files(dir, ".json").iter().enumerate() {
+        if !w.runs(i) {
+            continue;
+        }
+        let name = format!("witness~{}", std::path::Path::new(path).file_stem().map(|s| s.to_string_lossy().to_string()).unwrap_or_default());
+        emit_begin(i, &name);
+        let Ok(text) = std::fs::read_to_string(path) else { continue };
+        let Ok(f) = serde_json::from_str::<Value>(&text) else { continue };
+        // crash witnesses (unbounded allocation, stack overflow) carry the program as "input"
+        let f = if f.get("entry").is_none() && f.get("input").map(|x| x.is_object()).unwrap_or(false) { f["input"].clone() } else { f };
+        let Some((d, panics)) = run_witness(&f) else {
+            emit_end(&json!({"name": name, "kind": "wit", "stage": "harness-skip"}));
+            continue;
+        };
+        let mut pj = panics_json(&panics);
+        for p in pj.iter_mut() {
+            let mut wv = f.clone();
+            if let Some(o) = wv.as_object_mut() {
+                for k in ["panic", "item", "fingerprint", "count", "reached_from", "file"] {
+                    o.remove(k);
+                }
+            }
+            wv["stored_witness"] = json!(path);
+            p["witness"] = wv;
+        }
+        emit_end(&json!({"name": name, "kind": "wit", "stage": if panics.is_empty() { "quiet" } else { "panic" },
+                         "stages": d.chars().take(200).collect::<String>(), "panics": pj, "hash": fnv(&text) >> 11,
+                         "nontrivial": true, "mclass": "witness"}));
     }
 }
 
